@@ -511,6 +511,40 @@ def lossless_coordinates(repo, rep):
     rep.floor("R-C12-7", "converters examined", n, 5)
 
 
+def unconditional_factors(repo, rep):
+    """R-C12-10: a unit-conversion factor applied to the spectrum or to a coordinate is one value, not a choice made at run time from the data:
+    a local that multiplies / divides dataset contents in a converter has a single definition (or several identical ones)."""
+    rep.rule("R-C12-10", "conversion factors in the model converters are unconditional: no factor is selected by a test on the data (a heuristic 'already in "
+                         "degrees?' mis-fires on valid native files and leaves both the density and the labels unconverted)")
+    n_ = 0
+    for q in ("wavespectra.input.ww3.from_ww3", "wavespectra.input.ncswan.from_ncswan", "wavespectra.input.wwm.from_wwm", "wavespectra.input.era5.from_era5",
+              "wavespectra.input.ndbc.from_ndbc"):
+        fi = repo.try_func(q)
+        if fi is None:
+            raise AnalysisError(f"{q} vanished")
+        p0 = fi.params[0] if fi.params else None
+        for b in ast.walk(fi.node):
+            if not (isinstance(b, ast.BinOp) and isinstance(b.op, (ast.Mult, ast.Div))):
+                continue
+            for data, fac in ((b.left, b.right), (b.right, b.left)):
+                if not isinstance(fac, ast.Name) or fac.id in fi.params:
+                    continue
+                if not any(isinstance(x, (ast.Subscript, ast.Attribute)) and isinstance(x.value, ast.Name) and x.value.id == p0 for x in ast.walk(data)):
+                    continue
+                defs = [a for a in ast.walk(fi.node) if isinstance(a, ast.Assign) and any(isinstance(t, ast.Name) and t.id == fac.id for t in a.targets)]
+                if not defs:
+                    continue
+                n_ += 1
+                vals = {unparse(a.value) for a in defs}
+                if len(vals) > 1:
+                    rep.fail("R-C12-10", fi.file, b.lineno, fi.qualname, f"{unparse(b)[:70]}  with {fac.id} in {sorted(vals)}",
+                             f"the factor '{fac.id}' is chosen at run time between {sorted(vals)}: for the files on which the test mis-fires the spectrum keeps its "
+                             "native units and direction labels", anchor=f"conditional-factor:{fi.name}:{fac.id}")
+                else:
+                    rep.ok("R-C12-10", f"{fi.file}:{b.lineno} {fi.name}", unparse(b)[:70], f"{fac.id} has one definition")
+    return n_
+
+
 def dispatcher_names(repo, rep):
     """R-C12-8: the signature sets contain names that are only DIMENSIONS in real files (nfreq, ndir, nbstation, points, station), so the set
     they are tested against must contain the dataset's dimensions as well as its variables."""
@@ -582,6 +616,7 @@ def no_positional_turn(repo, rep):
 
 
 def run(repo, rep, tier):
+    unconditional_factors(repo, rep)
     rep.rule("R-C12-5", "every parameter of the functions behind this property is read (model-native converters): none is accepted and then ignored, and no control parameter (cutoff, limit, tolerance, window, count, switch) is replaced by another value before use (coercion and default filling aside)")
     from .shared import unused_parameters
     unused_parameters(repo, rep, "R-C12-5", ("wavespectra.input.ww3", "wavespectra.input.ncswan", "wavespectra.input.wwm", "wavespectra.input.era5", "wavespectra.input.ndbc", "wavespectra.input.dataset"), "model-native converters")
